@@ -81,7 +81,7 @@ def run_routes(case: dict) -> dict:
             for r in copies:
                 t += 1
                 sp = otelgen.run_to_spans(r, f"{wf['name']}-t{t}", wf["name"],
-                                          rng.choice(["app1", "app two"]),
+                                          rng.choice(["app1", "app two", ""]),
                                           base + t * 10**9, rng)
                 spans += sp
                 expected_jobs[wf["name"]].append(r)
@@ -116,7 +116,12 @@ def run_routes(case: dict) -> dict:
         inverse = {v: k for k, v in mapping.items()} if mapping else None
         saved = otelgen.read_saved_pv(os.path.join(wd, "outB"), inverse)
         # ---- saved files == in-memory stream ----------------------------------------------
-        mem = _in_memory(cfg_b, "sqlite:///:memory:")
+        try:
+            mem = _in_memory(cfg_b, "sqlite:///:memory:")
+        except Exception as exc:  # noqa: BLE001 - otel_to_pv is code under test
+            out["violations"].append({"symptom": "in-memory-stream-raises:" + type(exc).__name__,
+                                      "detail": {"exc": str(exc)[:300]}})
+            return out
         out["jobs_in_memory"] = sum(len(j) for j in mem.values())
         out["events_in_memory"] = sum(len(e) for j in mem.values() for e in j.values())
         if saved != mem:
@@ -158,8 +163,14 @@ def run_routes(case: dict) -> dict:
             fname = wfn.replace(" ", "_")
             info: dict[str, Any] = {}
             out["workflows"][wfn] = info
-            loaded = _loaded_by_pv2puml(folder, wfn, mapping)
-            if loaded != mem.get(wfn):
+            try:
+                loaded = _loaded_by_pv2puml(folder, wfn, mapping)
+            except Exception as exc:  # noqa: BLE001 - the loader is code under test
+                loaded = None
+                out["violations"].append({
+                    "symptom": "pv2puml-cannot-load-saved-files:" + type(exc).__name__,
+                    "detail": {"workflow": wfn, "exc": str(exc)[:300]}})
+            if loaded is not None and loaded != mem.get(wfn):
                 out["violations"].append({"symptom": "pv2puml-loads-different-events",
                                           "detail": {"workflow": wfn}})
             r2 = otelgen.cli(["-o", os.path.join(wd, "outB2"), "pv2puml", "-fp", folder,
